@@ -953,7 +953,106 @@ def g21_overlap_after_inexact_cut_pair(rng):
     return g17_vertex_on_edge_pair(rng)
 
 
+def g22_plates_pair(rng):
+    """two to four plates (rectangles stacked in y), each with one to three windows at independent x
+    positions, some windows holding an island that has a window of its own: several hole-carrying polygons
+    whose holes interleave along the sweep (a hole of one parent starts between two holes of another).  The
+    other operand leaves most windows intact: a cover, a far rectangle, a bar, or a frame"""
+    W = 32
+    half = Fraction(1, 2)
+    a = []
+    for i in range(rng.choice([2, 2, 3, 4])):
+        y0 = 8 * i
+        poly = [_rect(0, y0, W, y0 + 6, ccw=rng.random() < 0.8)]
+        k = rng.choice([1, 2, 2, 3])
+        cuts = sorted(rng.sample(range(1, W), 2 * k))
+        islands = []
+        for j in range(k):
+            x0, x1 = cuts[2 * j], cuts[2 * j + 1]
+            wy0 = y0 + rng.choice([1, 1, 2])
+            wy1 = y0 + rng.choice([4, 5, 5])
+            poly.append(_rect(x0, wy0, x1, wy1, ccw=rng.random() < 0.3))
+            if x1 - x0 >= 3 and rng.random() < 0.5:
+                isl = [_rect(x0 + half, wy0 + half, x1 - half, wy1 - half, ccw=rng.random() < 0.8)]
+                if wy1 - wy0 >= 3 and rng.random() < 0.7:
+                    isl.append(_rect(x0 + 1, wy0 + 1, x1 - 1, wy1 - 1, ccw=rng.random() < 0.3))
+                islands.append(isl)
+        hs = poly[1:]
+        rng.shuffle(hs)
+        a.append([poly[0]] + hs)
+        a.extend(islands)
+    rng.shuffle(a)
+    top = 8 * len(a)
+    mode = rng.choice(["cover", "far", "bar", "frame", "strip"])
+    if mode == "cover":
+        b = [[_rect(-2, -2, W + 2, top + 2)]]
+    elif mode == "far":
+        b = [[_rect(W + 5, 0, W + 8, 3)]]
+    elif mode == "bar":
+        x = rng.randint(2, W - 4) + half
+        b = [[_rect(x, -1, x + rng.choice([half, 1, 2]), top + 1)]]
+    elif mode == "frame":
+        b = [[_rect(-3, -3, W + 3, top + 3), _rect(-1, -1, W + 1, top + 1, ccw=False)]]
+    else:
+        y = rng.randint(0, 12) + half * rng.randint(0, 1)
+        b = [[_rect(-1, y, W + 1, y + rng.choice([half, 1, 3]))]]
+    return (a, b) if rng.random() < 0.75 else (b, a)
+
+
+def g23_ulp_slanted_pair(rng):
+    """a side that is one to three ulps off vertical (ascending or descending, on the right or on the left
+    of its polygon), crossed by a horizontal side of the other operand near one of its ends: the computed
+    crossing has the x of one endpoint, so one of the two parts is exactly vertical -- pointing up or
+    pointing down ("corner case 2" of divide_segment and its mirror images)"""
+    x = rng.choice([1.0, 1.0, 3.0, float(rng.randint(1, 9)), float(rng.randint(1, 40)) / 4])
+    k = rng.choice([1, 1, 2, 3])
+    H = rng.choice([8, 10, 16])
+    xl = _ulps(x, -k)
+    xbot, xtop = (xl, x) if rng.random() < 0.6 else (x, xl)
+    if rng.random() < 0.5:
+        a = [[[(xbot, 0.0), (xtop, float(H)), (-5.0, float(H)), (-5.0, 0.0), (xbot, 0.0)]]]
+    else:
+        a = [[[(xbot, 0.0), (x + 6.0, 0.0), (x + 6.0, float(H)), (xtop, float(H)), (xbot, 0.0)]]]
+    t = rng.choice([0.125, 0.25, 0.5, 0.75, 0.75, 0.875, 0.9375])
+    y = H * t
+    if rng.random() < 0.6:
+        b = [[_rect(-2.0, -3.0, x + 3.0, y)]]
+    else:
+        b = [[_rect(-2.0, y, x + 3.0, H + 3.0)]]
+    if rng.random() < 0.3:
+        b[0][0] = list(reversed(b[0][0]))
+    return (a, b) if rng.random() < 0.5 else (b, a)
+
+
+def g24_touch_shared_vertical_pair(rng):
+    """a vertical edge piece shared by the two operands (a non-contributing / transition twin pair) whose
+    interior is touched by a vertex of a further polygon of the subject from the right (or, mirrored, from
+    the left): the event starting there has the vertical twin as its predecessor in the sweep line"""
+    w, h = rng.randint(1, 3), rng.randint(5, 9)
+    c0 = rng.randint(0, 2)
+    c1 = rng.randint(c0 + 3, h)
+    e = rng.randint(1, 5)
+    ya = c0 + Fraction(rng.randint(1, 2 * (c1 - c0) - 1), 2)
+    d = rng.choice([1, 2, 4])
+    r = Fraction(rng.randint(1, 3), 2)
+    plate = _rect(0, 0, w, h, ccw=rng.random() < 0.8)
+    tri = [(w, ya), (w + d, ya - r), (w + d, ya + r), (w, ya)]
+    if rng.random() < 0.3:
+        tri.reverse()
+    a = [[plate], [tri]]
+    if rng.random() < 0.3:
+        a.reverse()
+    b = [[_rect(w, c0, w + e, c1, ccw=rng.random() < 0.8)]]
+    if rng.random() < 0.3:
+        a = map_mpoly(a, lambda p: (-p[0], p[1]))
+        b = map_mpoly(b, lambda p: (-p[0], p[1]))
+    return (a, b) if rng.random() < 0.6 else (b, a)
+
+
 FAMILIES = {
+    "g24": g24_touch_shared_vertical_pair,
+    "g23": g23_ulp_slanted_pair,
+    "g22": g22_plates_pair,
     "g1": g1_pair,
     "g2": g2_pair,
     "g3": g3_pair,
@@ -976,7 +1075,7 @@ FAMILIES = {
     "g21": g21_overlap_after_inexact_cut_pair,
 }
 # families on which all arithmetic is exact by construction / usually exact / never exact
-EXACT_FAMILIES = {"g1", "g10", "g12", "g13", "g14", "g15", "g16", "g18"}
+EXACT_FAMILIES = {"g1", "g10", "g12", "g13", "g14", "g15", "g16", "g18", "g22"}
 # families whose operands stay exact when operands of different pairs (and results of operations) are mixed:
 # all edges axis-parallel
 CLOSED_EXACT_FAMILIES = {"g1", "g12", "g13", "g18"}
